@@ -21,12 +21,27 @@ def main():
     from rv.ctx import Ctx
 
     ctx = Ctx(pid, shard.get('tier', 'quick'), int(shard.get('seed', 0)), shard)
+    reach = None
+    if os.environ.get('RV_REACH', '1') != '0':
+        # reach monitor: functions / lines / branch arms of the working tree the workload executed
+        try:
+            from rv.reach import Reach
+
+            reach = Reach(os.environ.get('RV_REPO_SRC', '/repo/src')).start()
+        except Exception:  # noqa: BLE001
+            reach = None
     try:
         mod = importlib.import_module(f'rv.props.{pid.lower()}')
         mod.run(shard, ctx)
     except Exception:  # noqa: BLE001
         # an unexpected exception in harness/oracle code is never a violation
         ctx.inconclusive_because('harness error: ' + traceback.format_exc(limit=8)[-2500:])
+    if reach is not None:
+        try:
+            reach.stop()
+            ctx.reach = reach.report()
+        except Exception:  # noqa: BLE001
+            pass
     ctx.dump(out_path)
 
 
